@@ -43,8 +43,8 @@ def edpcol_of(res):
 def run(ck: Check):
     thorough = ck.tier == "thorough"
     ck.rule = ("micro-specs (1 Einsum, 2-3 memories, finite sizes); four mapper runs each: ENERGY, LATENCY, EDP, "
-               "ENERGY|LATENCY; one SetMetrics step per micro-spec validated by TLC. Non-trivial = micro-spec whose "
-               "energy-latency front has at least two points; distinct by micro-spec.")
+               "ENERGY|LATENCY; one SetMetrics step per micro-spec validated by TLC. Non-trivial = every micro-spec with "
+               "all four runs recorded (fronts with at least two points are counted separately); distinct by micro-spec.")
     worlds = cc.small_worlds(ck, 4 if not thorough else 20, 900)
     obs = cc.observe(ck, [(("single", w["id"]), w, None) for w in worlds])
     fr_runs = mc.run_mapper(ck, [(w, ("ENERGY", "LATENCY"), None, True) for w in worlds])
@@ -60,8 +60,9 @@ def run(ck: Check):
             continue
         p = front_obs(fres)
         p["edpcol"] = p["edpcol"] and edpcol_of(eres)
+        ck.count_nontrivial(w["id"])
         if p["n"] >= 2:
-            ck.count_nontrivial(w["id"])
+            ck.extra["fronts_with_at_least_two_points"] = ck.extra.get("fronts_with_at_least_two_points", 0) + 1
         small = all(x is None or (abs(x.numerator) < 2 ** 26 and x.denominator < 16)
                     for x in (o["optE"], o["optL"], o["optEDP"], p["minE"], p["minL"], p["minEDP"]))
         if not small:
